@@ -197,6 +197,7 @@ func c06Worker(sh *explore.Shard) {
 		}
 	}
 	rec()
+	c06Matcher(sh, forest, &idx)
 	sh.C.Add("option_alphabet", 0)
 	if sh.I == 0 {
 		sh.C.Add("option_alphabet", int64(len(opts)))
@@ -207,8 +208,106 @@ func c06Worker(sh *explore.Shard) {
 	_ = sort.Strings
 }
 
+// c06Matcher settles the match relation itself: every pattern over a token
+// alphabet up to a length bound, as the only rule on the command line (include
+// and exclude), against every name over {a,b,/} up to a length bound. Regular
+// expressions go through --include-regexp and the /REGEXP/ spelling, prefixes
+// through --include PREFIX (a word bracketed by '/' being a regexp, as
+// documented). Patterns the reference matcher's grammar does not cover or that
+// Go's regexp package rejects are counted and skipped.
+func c06Matcher(sh *explore.Shard, forest *refmodel.Forest, idx *int64) {
+	maxPat, maxName := 5, 4
+	if sh.Tier == "thorough" {
+		maxPat, maxName = 6, 5
+	}
+	var names []string
+	var gen func(alpha string, max int, cur []byte, f func(string))
+	gen = func(alpha string, max int, cur []byte, f func(string)) {
+		f(string(cur))
+		if len(cur) == max {
+			return
+		}
+		for i := 0; i < len(alpha); i++ {
+			gen(alpha, max, append(cur, alpha[i]), f)
+		}
+	}
+	gen("ab/", maxName, nil, func(w string) {
+		if w != "" {
+			names = append(names, w)
+		}
+	})
+	var compared, skipped, matched int64
+	one := func(argv []string, rule refmodel.Rule) {
+		*idx++
+		if !sh.Mine(*idx) || sh.Expired() {
+			return
+		}
+		if rule.Kind == 'r' {
+			if _, err := refmodel.ParseRegex(rule.Pattern); err != nil {
+				skipped++
+				return
+			}
+		}
+		rg, err := realGrouper(nil, argv, false)
+		sh.C.Evals++
+		if err != nil {
+			// syntax the real regexp package rejects (nested repetition ...): no verdict
+			skipped++
+			return
+		}
+		rules := []refmodel.Rule{rule}
+		var sig strings.Builder
+		for _, ref := range names {
+			walk, _ := rg.Categorize(ref)
+			want := forest.Selected(rules, false, ref)
+			compared++
+			if want == rule.Include {
+				matched++
+			}
+			if walk != want {
+				sh.C.Violate(explore.Violation{Property: "C06", Class: "match-relation",
+					Msg:  fmt.Sprintf("options %q: name %q traversed=%v, expected %v (pattern %q must match the whole name / a prefix only at a component boundary)", argv, ref, walk, want, rule.Pattern),
+					Case: caseJSON(sh.Index(), map[string]any{"argv": argv, "ref": ref})})
+				break
+			}
+			if walk {
+				sig.WriteByte('+')
+			} else {
+				sig.WriteByte('-')
+			}
+		}
+		sh.C.Nontrivial++
+		if maxName <= 4 {
+			sh.C.Outcome("m" + sig.String())
+		}
+	}
+	gen("ab/.*?+|()", maxPat, nil, func(p string) {
+		one([]string{"--include-regexp", p}, refmodel.Rule{Include: true, Kind: 'r', Pattern: p})
+		if len(p) <= 3 {
+			one([]string{"--exclude", "/" + p + "/"}, refmodel.Rule{Include: false, Kind: 'r', Pattern: p})
+		}
+	})
+	gen("ab/", maxPat, nil, func(p string) {
+		for _, inc := range []bool{true, false} {
+			opt := "--exclude"
+			if inc {
+				opt = "--include"
+			}
+			rule := refmodel.Rule{Include: inc, Kind: 'p', Pattern: p}
+			if len(p) >= 2 && p[0] == '/' && p[len(p)-1] == '/' {
+				// documented: an argument bracketed by '/' is a regular expression
+				rule = refmodel.Rule{Include: inc, Kind: 'r', Pattern: p[1 : len(p)-1]}
+			}
+			one([]string{opt, p}, rule)
+		}
+	})
+	sh.C.Add("matcher_pairs_compared", compared)
+	sh.C.Add("matcher_pairs_matching", matched)
+	sh.C.Add("matcher_patterns_skipped(outside the model grammar or rejected by Go regexp)", skipped)
+}
+
 func init() {
 	Registry["C06"] = &Check{Level: "exploration", Worker: c06Worker, QuickBudget: 60 * time.Second, ThoroughBudget: 25 * time.Minute,
-		Rule:        "all option sequences of length <=3 (quick) / <=4 (thorough) over the option alphabet (include/exclude x prefixes cut at and off component boundaries, regexps with alternation/anchors/lazy and backtracking quantifiers, @refgroups incl. nested, rule-less and augmented built-in groups; -regexp and --refgroup spellings; every --[no-]{branches,tags,remotes,notes,stash} incl. =false) x ROOT present/absent, parsed by the real pflag + RefGroupBuilder; Categorize() of every reference of a boundary-built universe compared with an independent fold and an independent full-match regexp matcher. non-trivial = sequences of length >= 2",
+		Rule:        "all option sequences of length <=3 (quick) / <=4 (thorough) over the option alphabet (include/exclude x prefixes cut at and off component boundaries, regexps with alternation/anchors/lazy and backtracking quantifiers, @refgroups incl. nested, rule-less and augmented built-in groups; -regexp and --refgroup spellings; every --[no-]{branches,tags,remotes,notes,stash} incl. =false) x ROOT present/absent, parsed by the real pflag + RefGroupBuilder; Categorize() of every reference of a boundary-built universe compared with an independent fold and an independent full-match regexp matcher; plus the match relation itself: every regexp over the tokens a b / . * ? + | ( ) of length <=5 (<=6) and every prefix over a b / of length <=5 (<=6), as the only rule, against every name over a b / of length <=4 (<=5). non-trivial = sequences of length >= 2 and single-pattern cases",
 		Assumptions: []string{"refgroup configuration is served by a fake Configger implementing GetConfig's documented contract (C15 owns the real parser)", "regular expressions are limited to the grammar of the reference matcher (literals . * + ? | groups \\d anchors)"}}
 }
